@@ -81,7 +81,9 @@ ELIST = "{ foo; bar*; extern \"C\" { baz; }; };\n"
 TOKENS = ["{", "}", "(", ")", ";", ":", "*", ",", "=", "+", "/DISCARD/", "SECTIONS", "ALIGN", "0x", "99999999999999999999", "\"", "/*", "*/", ".", "PROVIDE", "INPUT", "GROUP", "global", "local", "extern", "\x00", "\xff"]
 OPTIONS = ["-o", "-L", "-l", "-e", "-z", "-T", "-soname", "--hash-style=", "--build-id=", "-m", "--version-script=", "--dynamic-list=", "--defsym=", "--section-start=", "--threads=", "-rpath", "--sysroot=",
            "--wrap=", "--exclude-libs=", "-Bsymbolic", "--gc-sections", "-shared", "-pie", "-r", "-static", "--entry=", "--image-base=", "-z max-page-size=", "--pack-dyn-relocs=", "--unresolved-symbols=", "-O", "--sort-section=",
-           "--export-dynamic-symbol=", "--undefined=", "-y", "--trace-symbol=", "@"]
+           "--export-dynamic-symbol=", "--undefined=", "-y", "--trace-symbol=", "@",
+           "--push-state", "--pop-state", "--pop-state", "--as-needed", "--no-as-needed", "--whole-archive", "--no-whole-archive", "-Bstatic", "-Bdynamic", "--start-group", "--end-group",
+           "--start-lib", "--end-lib", "-lb", "-L.", "a.o", "libb.a"]
 VALUES = ["", "0", "-1", "0x", "0xffffffffffffffffffff", "x" * 300, "=", "a=b=c", "\"", ".text=0x10", "99999999999999999999", "gnu", "none", "../" * 20, "/dev/null", "/nonexistent/x", "é", " ", ","]
 
 
@@ -227,7 +229,8 @@ def run(chk, replay=None):
                 open(f"{w}/{fname}", "wb").write(data)
             base = {"object": ["a.o", "b.o"], "object2": ["a.o", "b.o"], "archive": ["a.o", "libb.a"], "thin": ["a.o", "libt.a"], "shared": ["a.o", "libb.so"],
                     "script": ["a.o", "b.o", "-T", "s.ld"], "version-script": ["a.o", "b.o", "-shared", "--version-script=v.map"], "export-list": ["a.o", "b.o", "-pie", "--dynamic-list=e.list"],
-                    "response-file": ["a.o", "b.o", "@args.rsp"], "arguments": ["a.o", "b.o"] + (argv or [])}[kind]
+                    "response-file": ["a.o", "b.o", "@args.rsp"],
+                    "arguments": ((argv or []) + ["a.o", "b.o"]) if (len(argv or []) % 2) else (["a.o"] + (argv or []) + ["b.o"])}[kind]
             try:
                 p = subprocess.run([wild] + base + ["-o", "out"], cwd=w, stdout=subprocess.PIPE, stderr=subprocess.STDOUT, timeout=20)
                 rc, out = p.returncode, p.stdout.decode("utf-8", "replace")
